@@ -10,7 +10,7 @@
  *                   harness_fields, the copy loop body is the same for every byte).
  *   harness_outb    outputted_byte: window, window position, output position, history.
  *   harness_read    one lha_pm1_read: optional 5-bit start header, command bit, byte block of <= BLOCK_MAX symbolic
- *                   bytes (real read_byte under any start header) followed by its copy, or a bare copy.  The copy
+ *                   bytes (read_byte by its contract from harness_fields) followed by its copy, or a bare copy.  The copy
  *                   itself is read_copy_command's contract (harness_copy, arbitrary window): the stub records that
  *                   it is entered at the output/window position after the block, at the right bit, with the
  *                   block's bytes already appended (outputted_byte contract, harness_outb), writing behind the block.
@@ -20,7 +20,7 @@
  *                   command follows unless the block has the maximal length 216 (callees stubbed).
  * Stubs: bit reader = BITS_SPEC; find_in_history_list (harness_fields) returns an arbitrary "value at rank" ghost
  * array and records the rank; update_history_list records the bytes in order (both justified by mtf.*);
- * harness_read stubs outputted_byte and read_copy_command by their contracts (see above); harness_block stubs
+ * harness_read stubs read_byte, outputted_byte and read_copy_command by their contracts (see above); harness_block stubs
  * read_byte, outputted_byte, read_copy_command. */
 #define BITS_SPEC
 #ifndef BS_N
@@ -69,15 +69,17 @@ static uint8_t find_in_history_list(HistoryLinkedList *list, uint8_t count)
 }
 #endif
 #ifdef READ_HARNESS
-/* the k-th history lookup returns an arbitrary byte and records the rank asked for */
-static const u8 *find_vals;
-static unsigned find_calls, find_rank[BLOCK_MAX];
-static uint8_t find_in_history_list(HistoryLinkedList *list, uint8_t count)
+/* contract of read_byte as established by harness_fields for every start header: consumes exactly the bits of one
+ * coded rank under the stream's start header (rb_header: ghost, set by the harness; the stub checks the decoder
+ * agrees) and returns the history entry at that rank - here an arbitrary byte per call, the rank is recorded */
+static const u8 *rb_vals;
+static unsigned rb_calls, rb_rank[BLOCK_MAX], rb_header_ok = 1, rb_header;
+static int read_byte(LHAPM1Decoder *decoder)
 {
-	unsigned k = find_calls++;
-	(void) list;
-	if (k < BLOCK_MAX) find_rank[k] = count;
-	return find_vals[k < BLOCK_MAX ? k : 0];
+	unsigned k = rb_calls++;
+	if (decoder->byte_decode_tree != byte_decode_trees[rb_header]) rb_header_ok = 0;
+	if (k < BLOCK_MAX) rb_rank[k] = pm1_ref_rank(rb_header, &bs_pos);
+	return rb_vals[k < BLOCK_MAX ? k : 0];
 }
 /* contract of outputted_byte (harness_outb): byte appended to the window, the history and the output count */
 static u8 ob_log[BLOCK_MAX];
@@ -246,12 +248,13 @@ void harness_read(void)
 	ASSUME(skip < 8 && opos < 0x7fff0000u && pos0 < RING_BUFFER_SIZE && row <= 32 && cret <= MAX_COPY_BLOCK_LEN);
 	ALIGN(skip);
 	load_bits(data, skip);
-	find_vals = vals;
+	rb_vals = vals;
 	cc_ret = cret;
 	/* reference decode of the command up to the copy */
 	cur = skip;
 	if (row == 32) { header = PMA_BITS(cur, 5); cur += 5; }   /* start of stream: the 5-bit header selects the byte code */
 	else header = row;
+	rb_header = header;
 	is_block = PMA_BITS(cur, 1); cur += 1;
 	if (is_block) {
 		blen = pma_ref_rows(pm1_ref_block_len, 5, &cur);
@@ -266,10 +269,10 @@ void harness_read(void)
 	n = lha_pm1_read(&dec, out);
 
 	CHECK(dec.byte_decode_tree == byte_decode_trees[header], "C04: the 5-bit stream header selects the byte code for the whole stream");
-	CHECK(find_calls == blen && ob_calls == blen, "C04: a block of the coded length: one history lookup and one output per byte");
+	CHECK(rb_calls == blen && ob_calls == blen && rb_header_ok, "C04: a block of the coded length: one coded byte (under the stream's start header) and one output per position");
 	for (i = 0; i < BLOCK_MAX; ++i) if (i < blen) {
-		CHECK(find_rank[i] == rank[i], "C04: i-th byte of a block is looked up at its coded rank (any of the 32 start headers)");
-		CHECK(out[i] == vals[i] && ob_log[i] == vals[i], "C04: i-th byte of a block is the history entry found there, delivered and appended in order");
+		CHECK(rb_rank[i] == rank[i], "C04: i-th byte of a block is the i-th coded rank after the block length");
+		CHECK(out[i] == vals[i] && ob_log[i] == vals[i], "C04: i-th byte of a block is the byte decoded for it, delivered and appended in order");
 	}
 	/* every command ends with a copy (a block of <= BLOCK_MAX bytes is never the maximal one) */
 	CHECK(cc_calls == 1 && cc_bitpos == cur, "C04: command = [5-bit header at the start] + command bit + [block length + bytes] + copy");
